@@ -210,7 +210,8 @@ def recoverAt (c : Ctx) (errFlag : Bool) (idx : Nat) : Ctx × Recover :=
         let exn := match val with
           | some (.strace p) => p
           | _ => .nil
-        (c2.setFrameAt idx { fr with vars := [(n!"_exception", exn)], code := handler, pc := 0 }, .ok)
+        -- the handler that took over is removed from the frame (it is not its own handler)
+        (c2.setFrameAt idx { fr with vars := [(n!"_exception", exn)], code := handler, pc := 0, errB := none }, .ok)
     | some (.exceptB handler exchanged) =>
       if exchanged then (c, .error)
       else
@@ -219,7 +220,7 @@ def recoverAt (c : Ctx) (errFlag : Bool) (idx : Nat) : Ctx × Recover :=
           | none => (none, c)
         let c2 := c1.clearV
         (c2.setFrameAt idx { fr with vars := [(n!"_exception", val.getD .nil)], code := handler, pc := 0,
-                                     errB := some (.exceptB handler true) }, .ok)
+                                     errB := none }, .ok)
     | some _ => (c, .ok)
 
 /-- the stack part of `throw_any`; the Boolean tells whether the handler took over -/
